@@ -274,7 +274,7 @@ impl<'a, const BITS: usize, const LIMBS: usize> FromSql<'a> for Uint<BITS, LIMBS
                     || exponent < 0
                     || sign != 0x0000
                     || dscale != 0
-                    || digits > exponent + 1
+                    || i32::from(digits) > i32::from(exponent) + 1
                     || raw.len() != digits as usize * 2
                 {
                     return Err(Box::new(FromSqlError::ParseError(ty.clone())));
@@ -294,7 +294,9 @@ impl<'a, const BITS: usize, const LIMBS: usize> FromSql<'a> for Uint<BITS, LIMBS
                 });
                 #[allow(clippy::cast_sign_loss)]
                 // Expression can not be negative due to checks above
-                let iter = iter.chain(iter::repeat(0).take((exponent + 1 - digits) as usize));
+                let iter = iter.chain(
+                    iter::repeat(0).take((i32::from(exponent) + 1 - i32::from(digits)) as usize),
+                );
 
                 let value = Self::from_base_be(10000, iter)?;
                 if error {
